@@ -52,10 +52,16 @@ def ini_quote(v):
     return '"' + v.replace("\\", "\\\\").replace('"', '\\"').replace("\n", "\\n").replace("\r", "\\r").replace("\t", "\\t") + '"'
 
 
-def gen_msgs(rnd, n):
+# message texts that carry terminal colour codes of their own (forwarded compiler / tool output)
+COLOURED_TEXTS = ["\x1b[31merror:\x1b[0m no such file", "warn \x1b[1;33mdeprecated\x1b[0m call", "\x1b[32mok\x1b[m",
+                  "plain then \x1b[0;36mcyan"]
+
+
+def gen_msgs(rnd, n, coloured=False):
     out = []
     for i in range(n):
-        out.append({"type": rnd.choice(TYPES), "cat": rnd.choice(CATS), "text": rnd.choice(TEXTS) + " " + str(i), "line": 10 + i})
+        pool = COLOURED_TEXTS if coloured and rnd.random() < 0.4 else TEXTS
+        out.append({"type": rnd.choice(TYPES), "cat": rnd.choice(CATS), "text": rnd.choice(pool) + " " + str(i), "line": 10 + i})
     return out
 
 
@@ -191,7 +197,7 @@ class OneLineScenario:
         self.N = rnd.choice([0, 1, 2, 3])
         self.opts = rnd.choice([0, 0, 1, 2, 4, 5, 6, 7])
         self.async_ = rnd.random() < 0.5
-        self.msgs = gen_msgs(rnd, rnd.randint(1, 8))
+        self.msgs = gen_msgs(rnd, rnd.randint(1, 8), coloured=True)
         # what the arguments ask of the file sink, and (sometimes) a log file of an earlier day that is already there
         self.fopt = {"L": self.L, "N": self.N, "startup": bool(self.opts & 1), "daily": bool(self.opts & 2), "gz": bool(self.opts & 4),
                      "old": [f"old line {i + 1} of an earlier day" for i in range(rnd.randint(1, 3))] if rnd.random() < 0.6 else []}
